@@ -109,6 +109,12 @@ def run_case(case, ctx):
                     r = bounded(model[i]['ctx'].wait, 40)
                     if r is not True:
                         out.viol('delete_returned_false', what, repr(r))
+                    # the workers of the context must be gone at OS level (checked before any call on them: wait() would release them itself)
+                    pids = [rec['w'].pid for rec in model[i]['workers'] if rec['alive']]
+                    left = wait_gone(pids, 3.0)
+                    if left:
+                        out.viol('context_worker_process_survived_delete', what + (':>=2_workers' if len(pids) >= 2 else ''),
+                                 f'{len(left)} of {len(pids)} worker process(es) of deleted context {i} still running 3 s after delete returned True')
                     for rec in model[i]['workers']:
                         try:
                             dead = bounded(rec['w'].wait, 25, 5)
